@@ -59,6 +59,7 @@ pub fn fork_run<F: FnOnce(&mut std::fs::File)>(cpu_secs: u64, wall_ms: i64, f: F
             libc::setrlimit(libc::RLIMIT_CORE, &nocore);
             // own process group, so that helper children (fake rustfmt) die with us
             libc::setpgid(0, 0);
+            RESULT_FD.store(fds[1], std::sync::atomic::Ordering::Relaxed);
             let mut w = std::fs::File::from_raw_fd(fds[1]);
             f(&mut w);
             let _ = w.flush();
@@ -133,5 +134,18 @@ pub fn set_cpu_budget_from_now(secs: u64) {
         let used = (ru.ru_utime.tv_sec + ru.ru_stime.tv_sec) as u64 + 2;
         let lim = libc::rlimit { rlim_cur: used + secs, rlim_max: libc::RLIM_INFINITY };
         libc::setrlimit(libc::RLIMIT_CPU, &lim);
+    }
+}
+
+static RESULT_FD: std::sync::atomic::AtomicI32 = std::sync::atomic::AtomicI32::new(-1);
+
+/// Give up on the current simulation child from any thread: write `json` as its result and exit.
+pub fn abort_child_with(json: &str) -> ! {
+    unsafe {
+        let fd = RESULT_FD.load(std::sync::atomic::Ordering::Relaxed);
+        if fd >= 0 {
+            libc::write(fd, json.as_ptr() as *const libc::c_void, json.len());
+        }
+        libc::_exit(0);
     }
 }
